@@ -753,7 +753,36 @@ func rewriteSelects(filename string, src []byte) ([]byte, int, error) {
 			fmt.Fprintf(&full, "\ncase %s: %s", comm, body)
 		}
 		full.WriteString("\n}")
-		fmt.Fprintf(&sb, "\n} }; if !__sd%d { %s } }\n//line %s:%d\n", id, full.String(), filename, fset.Position(ss.End()).Line)
+		// A select all of whose cases end in a return or a panic is a
+		// terminating statement (a function may end with it); the rewritten
+		// block must be one as well.
+		term := true
+		for _, c := range ss.Body.List {
+			cc := c.(*ast.CommClause)
+			if len(cc.Body) == 0 {
+				term = false
+				break
+			}
+			switch last := cc.Body[len(cc.Body)-1].(type) {
+			case *ast.ReturnStmt:
+			case *ast.ExprStmt:
+				call, ok := last.X.(*ast.CallExpr)
+				id, ok2 := ast.Expr(nil), false
+				if ok {
+					id, ok2 = call.Fun, true
+				}
+				if fn, isIdent := id.(*ast.Ident); !ok || !ok2 || !isIdent || fn.Name != "panic" {
+					term = false
+				}
+			default:
+				term = false
+			}
+		}
+		tail := ""
+		if term {
+			tail = "; panic(\"verif: unreachable\")"
+		}
+		fmt.Fprintf(&sb, "\n} }; if !__sd%d { %s } }%s\n//line %s:%d\n", id, full.String(), tail, filename, fset.Position(ss.End()).Line)
 		return sb.String()
 	}
 	out := render(0, len(src))
